@@ -922,4 +922,74 @@ def item_open(repo, out):
     out.append('Definition gen_v4_default_time_offset %s : A := %s.' % (OPS, _coerce(toff4, 'Q', 'v4 time_offset')))
 
 
-ITEMS = [item_fix_rule, item_v4_time, item_ds_time, item_preselect, item_spw, item_v4_freq, item_ds_index, item_open]
+# --------------------------------------------------------------------------- _cbf_attrs
+
+def item_cbf_attrs(repo, out):
+    """visdatav4._cbf_attrs: the chain of telstate lookups that yields the CBF dump period, as an interpreted program;
+    and the exceptions VisibilityDataV4.__init__ turns into `no CBF attributes` (a "lite" RDB)."""
+    rel = 'katdal/visdatav4.py'
+    tree = _parse(repo, rel)
+    fn = _func(tree, '_cbf_attrs', rel)
+    _plain_args(fn, ['attrs'], '_cbf_attrs')
+    if fn.decorator_list:
+        raise TranslateError('visdatav4: _cbf_attrs is decorated')
+    body = [n for n in fn.body if not (isinstance(n, ast.Expr) and isinstance(n.value, ast.Constant))]
+    steps = []
+    known = set()
+    for n in body[:-1]:
+        if not (isinstance(n, ast.Assign) and len(n.targets) == 1 and isinstance(n.targets[0], ast.Name)):
+            raise TranslateError('visdatav4: _cbf_attrs statement %s' % _u(n)[:80])
+        v = n.value
+        first = False
+        if isinstance(v, ast.Subscript) and isinstance(v.slice, ast.Constant) and v.slice.value == 0 \
+                and isinstance(v.value, ast.Subscript):
+            first = True
+            v = v.value
+        if not (isinstance(v, ast.Subscript) and _u(v.value) == 'attrs'):
+            raise TranslateError('visdatav4: _cbf_attrs lookup %s' % _u(n)[:80])
+        k = v.slice
+        if isinstance(k, ast.Constant) and isinstance(k.value, str):
+            base, key = None, k.value
+        elif isinstance(k, ast.BinOp) and isinstance(k.op, ast.Add) and isinstance(k.left, ast.Name) \
+                and k.left.id in known and isinstance(k.right, ast.Constant) and isinstance(k.right.value, str):
+            base, key = k.left.id, k.right.value
+        else:
+            raise TranslateError('visdatav4: _cbf_attrs key %s' % _u(k)[:80])
+        if n.targets[0].id in known:
+            raise TranslateError('visdatav4: _cbf_attrs assigns %s twice' % n.targets[0].id)
+        known.add(n.targets[0].id)
+        steps.append((n.targets[0].id, base, key, first))
+    ret = body[-1]
+    if not (isinstance(ret, ast.Return) and isinstance(ret.value, ast.Tuple)
+            and all(isinstance(e, ast.Name) and e.id in known for e in ret.value.elts)):
+        raise TranslateError('visdatav4: _cbf_attrs returns %s' % _u(ret)[:80])
+    result = [e.id for e in ret.value.elts]
+    # the caller: try: (self.cbf_dump_period, ...) = _cbf_attrs(attrs) except (KeyError, IndexError): ... = None
+    init = _v4_init(repo)
+    tries = [n for n in init.body if isinstance(n, ast.Try) and '_cbf_attrs' in _u(n)]
+    if len(tries) != 1 or len(tries[0].body) != 1 or len(tries[0].handlers) != 1 or tries[0].finalbody:
+        raise TranslateError('visdatav4: try / except around _cbf_attrs not as expected')
+    call = tries[0].body[0]
+    if not (isinstance(call, ast.Assign) and isinstance(call.targets[0], ast.Tuple) and _u(call.value) == '_cbf_attrs(attrs)'
+            and _u(call.targets[0].elts[0]) == 'self.cbf_dump_period' and len(call.targets[0].elts) == len(result)):
+        raise TranslateError('visdatav4: call of _cbf_attrs is %s' % _u(call)[:100])
+    h = tries[0].handlers[0]
+    if h.type is None:
+        raise TranslateError('visdatav4: bare except around _cbf_attrs')
+    excs = [_u(e) for e in (h.type.elts if isinstance(h.type, ast.Tuple) else [h.type])]
+    if 'self.cbf_dump_period=self.accumulations_per_dump=None' not in [_u(x) for x in h.body]:
+        raise TranslateError('visdatav4: except branch does not clear cbf_dump_period')
+    calls = [n for n in ast.walk(tree) if isinstance(n, ast.Call) and _u(n.func) == '_cbf_attrs']
+    if len(calls) != 1:
+        raise TranslateError('visdatav4: _cbf_attrs called %d times' % len(calls))
+    out.append('Inductive cbf_step := CbfStep (target : string) (base : option string) (key : string) (first : bool).')
+    out.append('(* target = attrs[base + key] (or attrs[key]), [0] of it when first *)')
+    out.append('Definition gen_cbf_prog : list cbf_step := [%s].' % '; '.join(
+        'CbfStep %s %s %s %s' % (coq_string(t), 'None' if b is None else '(Some %s)' % coq_string(b), coq_string(k),
+                                 'true' if f else 'false') for t, b, k, f in steps))
+    out.append('Definition gen_cbf_result : list string := [%s].' % '; '.join(coq_string(r) for r in result))
+    out.append('Definition gen_cbf_lite_exceptions : list string := [%s].' % '; '.join(coq_string(e) for e in sorted(excs)))
+
+
+ITEMS = [item_fix_rule, item_v4_time, item_ds_time, item_preselect, item_spw, item_v4_freq, item_ds_index, item_open,
+         item_cbf_attrs]
